@@ -624,6 +624,10 @@ func (env *LEnv) Update(k, v *LVal) *LVal {
 }
 
 func (env *LEnv) update(k, v *LVal) *LVal {
+	// The error for a symbol that is bound nowhere belongs to the form being
+	// evaluated in THIS environment, not to whatever the root environment --
+	// where the walk below ends -- last looked at.
+	origin := env
 	for {
 		_, ok := env.scope[k.Str]
 		if ok {
@@ -633,7 +637,7 @@ func (env *LEnv) update(k, v *LVal) *LVal {
 		if env.parent == nil {
 			lerr := env.Runtime.Package.Update(k, v)
 			if lerr.Type == LError {
-				if err := env.ErrorAssociate(lerr); err != nil {
+				if err := origin.ErrorAssociate(lerr); err != nil {
 					return err
 				}
 				return lerr
